@@ -285,3 +285,22 @@ def check(ctx):
     from .walkers import check_walker
     from .common import A as _A
     check_walker(ctx, "R13-e", ctx.fn("CancelScope._effectively_cancelled", _A))
+
+    # ---- R13-f a blocked receive() ends with EndOfStream exactly when it is released without an item: the only code that may take a
+    # receiver out of waiting_receivers is send_nowait (which fills its slot first), the receiver's own clean-up, and the close of the
+    # *last send clone*; symmetrically for blocked senders and the last receive clone (shared with C12/R12-e)
+    S_, R_ = "MemoryObjectSendStream", "MemoryObjectReceiveStream"
+    writer_table(ctx, "R13-f", "waiting_receivers", {f"{S_}.send_nowait": {"call:popitem"}, f"{S_}.close": {"call:clear", "call:popitem"},
+                                                     f"{R_}.receive": {"subscript", "call:pop"}}, floor=4, modules=[MEM])
+    writer_table(ctx, "R13-f", "waiting_senders", {f"{R_}.receive_nowait": {"call:popitem"}, f"{R_}.close": {"call:clear"},
+                                                   f"{S_}.send": {"subscript", "call:pop"}}, floor=4, modules=[MEM])
+    # (reading the queue to wake its events is a release as well: an `.set()` on events taken from a queue occurs only in those functions)
+    for cls_, q_, allowed in ((R_, "waiting_receivers", {f"{S_}.send_nowait", f"{S_}.close"}), (S_, "waiting_senders", {f"{R_}.receive_nowait", f"{R_}.close"})):
+        for f_ in ctx.repo.funcs_in(MEM):
+            reads = [n_ for n_ in own_walk(f_.node) if isinstance(n_, ast.Attribute) and n_.attr == q_]
+            sets_ = [n_ for n_ in own_walk(f_.node) if isinstance(n_, ast.Call) and isinstance(n_.func, ast.Attribute) and n_.func.attr == "set"]
+            if reads and sets_:
+                ok = f_.qual in allowed
+                ctx.ob("R13-f", f_, f"events of {q_} are set only by the peer's hand-over and the last close of the other side", ok, node=sets_[0],
+                       by=(f_.qual,), detail="" if ok else f"{f_.qual} reads {q_} and sets events: tasks blocked there are released although the "
+                                                          "other side still has open handles")
